@@ -65,6 +65,11 @@ func ruleCodecGlue(c *Ctx) {
 				if o == "!"+wantEq {
 					differ = true
 				}
+				// merged form: if off >= 0 && end <= len(buf) && bytes.Equal(buf[off:end], sb) — its failure is a miss
+				if strings.HasPrefix(o, "!(") && strings.HasSuffix(o, "&&"+wantEq+")") {
+					differ = true
+					continue
+				}
 				if strings.Contains(o, "bytes.Equal(") && o != wantEq && o != "!"+wantEq {
 					bad = "the table hit is compared as " + trunc(o, 120) + ", expected bytes.Equal(stringBuf[off:off+len(sb)], sb) with off = table[hash&mask]−1"
 				}
@@ -91,8 +96,8 @@ func ruleCodecGlue(c *Ctx) {
 				bad = fmt.Sprintf("a new string must get offset len(stringBuf), be appended to the buffer and the block writer and be recorded as offset+1 at table[hash&mask]: returns %s, stores %v, writes %v", ret, stores, writes)
 			}
 		}
-		if bad == "" && (nHit != 1 || nMiss != 2) {
-			bad = fmt.Sprintf("expected one hit and two miss paths, got %d/%d", nHit, nMiss)
+		if bad == "" && (nHit != 1 || nMiss < 1) {
+			bad = fmt.Sprintf("expected one hit and at least one miss path, got %d/%d", nHit, nMiss)
 		}
 		c.Check(bad == "", "indexString:table", p.Pos(fd), "index = hash & (len(table)−1); hit → stored offset after bytes.Equal; miss → len(buffer), append, write, record", "Serializer.indexString: "+bad, "two different strings whose hashes collide; the first string of a document")
 	} else {
